@@ -12,6 +12,7 @@ from vpm.ref.mdp import RefMDP
 from vpm.checks.c11 import OwnedRandom
 
 PROPERTY_ID = "C14"
+FUZZ = {"props": ["mdp_rollout", "evaluate"], "quick": [2, 800], "thorough": [8, 30000]}
 RULE = ("MDP / POMDP specs (stochastic, absorbing states, zero-probability entries) x policy kind (functional, "
         "tabular; alpha-vector, QMDP-style and stochastic-controller for POMDPs) x start state given or sampled x "
         "step cap 0..12 x harness-owned random stream; reward sequences (ints, length 0..12) x discount in "
